@@ -383,12 +383,15 @@ structure Ev where
   r : Rat
   deriving Repr, Inhabited
 
+/-- `if (checkDifferentSmall(0.0, p))` : contributions with negligible mass are skipped -/
+def Ev.keep (e : Ev) : Bool := diffSmall (.fin 0) (.fin e.p)
+
 def accT (evs : List Ev) (a s s1 : Nat) : Rat :=
-  sumQ ((evs.filter (fun e => e.a == a && e.s == s && e.s1 == s1)).map (·.p))
+  sumQ ((evs.filter (fun e => e.keep && (e.a == a && e.s == s && e.s1 == s1))).map (·.p))
 
 /-- dense: `R(s,a) += p*r`; sparse: the same only when `checkDifferentSmall(0.0, r)` -/
 def accR (sparse : Bool) (evs : List Ev) (s a : Nat) : Rat :=
-  sumQ ((evs.filter (fun e => e.a == a && e.s == s && (!sparse || diffSmall (.fin 0) (.fin e.r)))).map (fun e => e.p * e.r))
+  sumQ ((evs.filter (fun e => e.keep && (e.a == a && e.s == s && (!sparse || diffSmall (.fin 0) (.fin e.r))))).map (fun e => e.p * e.r))
 
 def rowSumT (evs : List Ev) (n a s : Nat) : Rat := sumQ ((List.range n).map (fun s1 => accT evs a s s1))
 
